@@ -64,8 +64,16 @@ func (m *Manager) SetSyncedTo(ns walletdb.ReadWriteBucket, bs *BlockStamp) error
 		return err
 	}
 
-	// Update memory now that the database is updated.
-	m.syncState.syncedTo = *bs
+	// Update memory once the database transaction is committed. If it is
+	// rolled back instead, the in-memory sync point must not run ahead of
+	// the one on disk.
+	syncedTo := *bs
+	ns.Tx().OnCommit(func() {
+		m.mtx.Lock()
+		m.syncState.syncedTo = syncedTo
+		m.mtx.Unlock()
+	})
+
 	return nil
 }
 
